@@ -553,3 +553,28 @@ pick:
 	}
 	verifAssert(out == want, "C02: switch does not take the first case equal to the value")
 }
+
+var c02CssTofu *Tofu
+
+// H_css: {css $b, suffix} writes the value of $b, a dash and the suffix for every value of $b -
+// the empty string, 0 and false included -, {css suffix} writes the suffix alone.
+func H_css(n, kind int) {
+	if c02CssTofu == nil {
+		c02CssTofu = verifMustCompile("{namespace c}\n/** @param b */\n{template .t}\n<i class=\"{css $b, title}\">{css row}</i>\n{/template}\n")
+	}
+	var b data.Value
+	var want string
+	switch kind {
+	case 0:
+		s := verifString(n)
+		b, want = data.String(s), s
+	case 1:
+		b, want = data.Int(int64(n)), []string{"0", "1", "2"}[n]
+	case 2:
+		b, want = data.Bool(n == 1), []string{"false", "true", "false"}[n]
+	}
+	out, err := verifRender(c02CssTofu, "c.t", data.Map{"b": b})
+	verifObserve("out", out)
+	verifAssert(err == nil, "harness: render failed")
+	verifAssert(out == "<i class=\""+want+"-title\">row</i>", "C02: {css $base, suffix} does not write base, dash and suffix")
+}
